@@ -29,12 +29,12 @@ theorem logOf_outputs (C : Crypto) (cfg : Cfg) (ops : List Op) :
   (runG_state C cfg ops init Ghost.init).2
 
 theorem final_inv (C : Crypto) (cfg : Cfg) (ops : List Op) :
-    Inv cfg (finalSt C cfg ops) (finalGhost C cfg ops) :=
-  (runG_inv C cfg ops init Ghost.init (inv_init cfg)).1
+    Inv C cfg (finalSt C cfg ops) (finalGhost C cfg ops) :=
+  (runG_inv C cfg ops init Ghost.init (inv_init C cfg)).1
 
 theorem log_inv (C : Crypto) (cfg : Cfg) (ops : List Op) (e : St × Ghost × Op × Out)
-    (he : e ∈ logOf C cfg ops) : Inv cfg e.1 e.2.1 ∧ e.2.2.2 = (step C cfg e.1 e.2.2.1).2 :=
-  (runG_inv C cfg ops init Ghost.init (inv_init cfg)).2 e he
+    (he : e ∈ logOf C cfg ops) : Inv C cfg e.1 e.2.1 ∧ e.2.2.2 = (step C cfg e.1 e.2.2.1).2 :=
+  (runG_inv C cfg ops init Ghost.init (inv_init C cfg)).2 e he
 
 /-! ## C32 — "a pairing step is accepted only in the protocol order (legacy: request, confirm,
     random; LESC: request, public key, random, DHKey check) with correct lengths and valid
@@ -63,7 +63,7 @@ theorem else_failed_and_idle (C : Crypto) (cfg : Cfg) (s : St) (p : Bytes) :
   | publicKey ha _ _ _ hr => exact Or.inl ⟨ha, by rw [hr]; simp⟩
   | lescRandom ha _ _ hr => exact Or.inl ⟨ha, by rw [hr]; simp⟩
   | dhkeyCheck ha _ _ _ hr => exact Or.inl ⟨ha, by rw [hr]; simp⟩
-  | dhkeyDeferred ha _ _ _ hr => exact Or.inl ⟨ha, by rw [hr]; simp⟩
+  | dhkeyVerified ha _ _ _ _ hr => exact Or.inl ⟨ha, by rw [hr]; simp⟩
 
 /-- **accepted_only_in_order**: whatever is not answered with Pairing Failed was at its place. -/
 theorem accepted_only_in_order (C : Crypto) (cfg : Cfg) (s : St) (p : Bytes)
@@ -82,7 +82,7 @@ example : AcceptedAt ⟨fun _ _ _ _ => [], fun _ _ _ => [], fun _ _ _ _ => [], f
 /-- **accepted_language**: in every history the opcodes accepted since the running pairing
     attempt began (= since the last Pairing Failed / reconnect), oldest first, are a prefix of
     `01 03 04` or of `01 0c 04 0d*` (a DHKey check that arrives while the user is asked is
-    swallowed, so it may repeat). -/
+    verified and remembered; a second one after the user's yes is verified again and answered). -/
 theorem accepted_language (C : Crypto) (cfg : Cfg) (ops : List Op) :
     InOrder (finalGhost C cfg ops).acc.reverse := by
   have h := (final_inv C cfg ops).rel
@@ -99,7 +99,8 @@ theorem accepted_language (C : Crypto) (cfg : Cfg) (ops : List Op) :
   case lescKeysExchanged => subst h; exact Or.inr (Or.inl (by decide))
   case lescConfirmSend => subst h; exact Or.inr (Or.inl (by decide))
   case lescRandomExchanged => subst h; exact Or.inr (Or.inl (by decide))
-  case userWait => obtain ⟨n, h⟩ := h; subst h; exact Or.inr (Or.inr ⟨n, hrep n⟩)
+  case userWait => subst h; exact Or.inr (Or.inl (by decide))
+  case userWaitVerified => obtain ⟨n, h⟩ := h; subst h; exact Or.inr (Or.inr ⟨n, hrep n⟩)
   case userSuccess => obtain ⟨n, h⟩ := h; subst h; exact Or.inr (Or.inr ⟨n, hrep n⟩)
   case userFailed => obtain ⟨n, h⟩ := h; subst h; exact Or.inr (Or.inr ⟨n, hrep n⟩)
   case completed =>
@@ -138,7 +139,7 @@ theorem srand_after_confirm_check (C : Crypto) (cfg : Cfg) (ops : List Op) (p : 
   | lescRandom ha _ hst =>
     exact Or.inl ⟨hst, acceptedAt_confirmSend_variant ha hst⟩
   | dhkeyCheck _ _ _ _ hr => rw [hr] at h04; simp at h04
-  | dhkeyDeferred _ _ _ _ hr => rw [hr] at h04; simp at h04
+  | dhkeyVerified _ _ _ _ _ hr => rw [hr] at h04; simp at h04
 
 /-! "… and sends its DHKey check only after verifying the central's DHKey check." -/
 
@@ -147,57 +148,21 @@ def emitsDhkey : Out → Bool
   | .rsp r _ => r.head? == some 0x0d
   | _ => false
 
-/-- FULL STATEMENT (false, see the witness): in every history, every DHKey check the peripheral
-    sends is the response to a DHKey check PDU whose value equals the `Ea` computed from the
-    values of this pairing. -/
-def dhkey_after_check_full : Prop :=
-  ∀ (C : Crypto) (cfg : Cfg) (ops : List Op), ∀ e ∈ logOf C cfg ops, emitsDhkey e.2.2.2 = true →
-    ∃ p, e.2.2.1 = .pdu p ∧ p.head? = some 0x0d ∧ lescEa C cfg e.1 = p.drop 1
-
-/-- a tool box whose functions are constants (any tool box exhibits the defect) -/
-def constCrypto : Crypto :=
-  ⟨fun _ _ _ _ => List.replicate 16 0, fun _ _ _ => [], fun _ _ _ _ => [], fun _ _ _ _ _ => ([], []),
-   fun _ _ _ _ _ _ _ => [7], fun _ _ _ _ => 0, fun _ _ => [], fun _ => true, fun _ => [], fun _ => [],
-   fun _ => ([], []), fun _ => [], fun _ => ⟨[], 0, 0⟩⟩
-
-def witnessCfg : Cfg :=
-  { variant := .lesc, input := .yesNo, display := true, bonding := false,
-    localAddr := [0xb6, 0xb5, 0xb4, 0xb3, 0xb2, 0xb1, 0], remoteAddr := [0xa6, 0xa5, 0xa4, 0xa3, 0xa2, 0xa1, 1] }
-
-/-- request (DisplayYesNo, SC), public key, poll (confirm), random — the user is asked and answers
-    later —, an all-zero DHKey check (swallowed), the user's yes, poll: the DHKey check leaves -/
-def witnessOps : List Op :=
-  [.user .async, .pdu [0x01, 0x01, 0x00, 0x08, 0x10, 0x00, 0x00], .pdu (0x0c :: List.replicate 64 2), .out,
-   .pdu (0x04 :: List.replicate 16 7), .pdu (0x0d :: List.replicate 16 0), .answer true, .out]
-
-/-- **witness**: on the asynchronous numeric-comparison path the peripheral's DHKey check is
-    sent by `l2cap_output` (no PDU at all is being answered), the central's check having been
-    dropped unverified.  Replayed on the real code: corpus/C32/dhkey_unverified_async.ops. -/
-theorem dhkey_after_check_witness : ¬ dhkey_after_check_full := by
-  intro h
-  have h' := h constCrypto witnessCfg witnessOps
-  have hmem : (finalSt constCrypto witnessCfg (witnessOps.take 7), finalGhost constCrypto witnessCfg (witnessOps.take 7),
-      Op.out, (step constCrypto witnessCfg (finalSt constCrypto witnessCfg (witnessOps.take 7)) .out).2)
-      ∈ logOf constCrypto witnessCfg witnessOps := by
-    simp [logOf, finalSt, finalGhost, witnessOps, runG]
-  obtain ⟨p, hp, _⟩ := h' _ hmem (by decide)
-  cases hp
-
-/-- the same history offers the key of that pairing afterwards -/
-example : (run constCrypto witnessCfg init (witnessOps ++ [.findKey 0 0])).2.getLast? = some (.key (some [])) := by
-  decide
-
-/-- **dhkey_after_check_partial** (strongest true statement): in every history every DHKey check
-    the peripheral sends is either the response to a DHKey check PDU that equals `Ea`, or it is
-    sent by `l2cap_output` in pairing state `user_response_success` — exactly the excluded case. -/
-theorem dhkey_after_check_partial (C : Crypto) (cfg : Cfg) (ops : List Op) :
+/-- **dhkey_after_check_full** (full strength): in every history, every DHKey check the peripheral
+    sends is either the response to a DHKey check PDU whose value equals the `Ea` computed from the
+    values of this pairing, or it is sent by `l2cap_output` after such a PDU was received: the DHKey
+    check accepted last in the running pairing attempt (`Ghost.lastDhkey`: recorded from the PDUs,
+    cleared by every Pairing Failed and reconnect) equals the `Ea` of the values the sent `Eb` is
+    computed from.  (Before fix sm-01 `l2cap_output` sent `Eb` in `user_response_success` with the
+    central's check dropped unverified or not even received.) -/
+theorem dhkey_after_check_full (C : Crypto) (cfg : Cfg) (ops : List Op) :
     ∀ e ∈ logOf C cfg ops, emitsDhkey e.2.2.2 = true →
       (∃ p, e.2.2.1 = .pdu p ∧ p.head? = some 0x0d ∧ lescEa C cfg e.1 = p.drop 1) ∨
-      (e.2.2.1 = .out ∧ e.1.st = .userSuccess) := by
+      (e.2.2.1 = .out ∧ e.2.1.lastDhkey = some (lescEa C cfg e.1)) := by
   intro e he hem
-  obtain ⟨_, hout⟩ := log_inv C cfg ops e he
+  obtain ⟨hinv, hout⟩ := log_inv C cfg ops e he
   obtain ⟨s, g, op, out⟩ := e
-  simp only at hout hem ⊢
+  simp only at hout hem hinv ⊢
   subst hout
   cases op with
   | pdu p =>
@@ -215,7 +180,7 @@ theorem dhkey_after_check_partial (C : Crypto) (cfg : Cfg) (ops : List Op) :
     | publicKey _ _ _ _ hr => rw [hr] at hem; simp at hem
     | lescRandom _ _ _ hr => rw [hr] at hem; simp at hem
     | dhkeyCheck _ hp _ _ _ hea => exact ⟨hp, hea⟩
-    | dhkeyDeferred _ _ _ _ hr => rw [hr] at hem; simp at hem
+    | dhkeyVerified _ _ _ _ _ hr => rw [hr] at hem; simp at hem
   | out =>
     right
     refine ⟨rfl, ?_⟩
@@ -225,7 +190,7 @@ theorem dhkey_after_check_partial (C : Crypto) (cfg : Cfg) (ops : List Op) :
     cases hs with
     | nothing _ hr => rw [hr] at hem; simp at hem
     | confirmSent _ _ _ hr => rw [hr] at hem; simp at hem
-    | dhkeySent _ hst => exact hst
+    | dhkeySent _ hst => exact hinv.dh (Or.inr hst)
     | userFailed _ _ hf => obtain ⟨⟨e, he⟩, _⟩ := hf; rw [he] at hem; simp at hem
     | encInfo _ _ _ _ hr => rw [hr] at hem; simp at hem
     | centralId _ _ _ _ _ hr => rw [hr] at hem; simp at hem
@@ -239,35 +204,137 @@ theorem dhkey_after_check_partial (C : Crypto) (cfg : Cfg) (ops : List Op) :
     simp only [step, answer] at hem
     split at hem <;> simp [emitsDhkey] at hem
 
-/-- **dhkey_after_check_without_numeric_comparison**: the full statement holds for every
-    configuration that cannot ask the user (anything but display + yes/no input). -/
-theorem dhkey_after_check_without_numeric_comparison (C : Crypto) (cfg : Cfg)
-    (hcfg : ¬ (cfg.input = .yesNo ∧ cfg.display = true)) (ops : List Op) :
-    ∀ e ∈ logOf C cfg ops, emitsDhkey e.2.2.2 = true →
-      ∃ p, e.2.2.1 = .pdu p ∧ p.head? = some 0x0d ∧ lescEa C cfg e.1 = p.drop 1 := by
-  intro e he hem
-  rcases dhkey_after_check_partial C cfg ops e he hem with h | ⟨_, hst⟩
-  · exact h
-  · exact absurd ((log_inv C cfg ops e he).1.user (Or.inr (Or.inl hst))) hcfg
+/-- the recorded DHKey check really is a PDU of the history: `Ghost.lastDhkey` is only ever set to
+    the payload of a `0d` PDU that was not answered with Pairing Failed -/
+theorem lastDhkey_is_received (C : Crypto) (cfg : Cfg) (pre : St) (g : Ghost) (op : Op) (o : Out) (v : Bytes)
+    (h : (gstep C cfg pre g op o).lastDhkey = some v) :
+    g.lastDhkey = some v ∨ ∃ p r d, op = .pdu p ∧ o = .rsp r d ∧ p.headD 0 = 0x0d ∧ p.drop 1 = v ∧ r.head? ≠ some 0x05 := by
+  cases op <;> cases o <;> simp only [gstep] at h <;> try exact Or.inl h
+  · rename_i p r d
+    by_cases h05 : r.head? = some 0x05
+    · simp [h05, Ghost.aborted] at h
+    · by_cases h0d : p.head?.getD 0 = 0x0d
+      · right
+        refine ⟨p, r, d, rfl, rfl, by simpa using h0d, ?_, h05⟩
+        simp [h05, h0d] at h
+        simpa using h
+      · left
+        have h0d' : ¬ p.headD 0 = 0x0d := by simpa using h0d
+        simp only [h05, if_false] at h
+        repeat' split at h
+        all_goals first
+          | exact h
+          | contradiction
+  · rename_i r d
+    repeat' split at h
+    all_goals first
+      | exact Or.inl h
+      | (simp [Ghost.aborted] at h)
+  all_goals simp [Ghost.init] at h
 
-/-- non-vacuity of the hypothesis: the legacy manager with keyboard + display -/
-example : ¬ ((InputCap.keyboard = .yesNo) ∧ true = true) := by decide
+/-- a tool box whose functions are constants -/
+def constCrypto : Crypto :=
+  ⟨fun _ _ _ _ => List.replicate 16 0, fun _ _ _ => [], fun _ _ _ _ => [], fun _ _ _ _ _ => ([], []),
+   fun _ _ _ _ _ _ _ => List.replicate 16 7, fun _ _ _ _ => 0, fun _ _ => [], fun _ => true, fun _ => [], fun _ => [],
+   fun _ => ([], []), fun _ => [], fun _ => ⟨[], 0, 0⟩⟩
+
+def witnessCfg : Cfg :=
+  { variant := .lesc, input := .yesNo, display := true, bonding := false,
+    localAddr := [0xb6, 0xb5, 0xb4, 0xb3, 0xb2, 0xb1, 0], remoteAddr := [0xa6, 0xa5, 0xa4, 0xa3, 0xa2, 0xa1, 1] }
+
+/-- request (DisplayYesNo, SC), public key, poll (confirm), random — the user is asked and answers
+    later —, a DHKey check `ea`, the user's yes, poll -/
+def asyncOps (ea : Bytes) : List Op :=
+  [.user .async, .pdu [0x01, 0x01, 0x00, 0x08, 0x10, 0x00, 0x00], .pdu (0x0c :: List.replicate 64 2), .out,
+   .pdu (0x04 :: List.replicate 16 7), .pdu (0x0d :: ea), .answer true, .out]
+
+/-- non-vacuity (and the input that failed before fix sm-01, corpus/C32/dhkey_unverified_async.ops):
+    with the constant tool box `Ea = Eb = 07 .. 07`.  A wrong check received while the user is asked is
+    answered with Pairing Failed (DHKey check failed) at once and the user's late yes is refused; a
+    correct one is remembered, and after the user's yes the poll sends `Eb`. -/
+example : (run constCrypto witnessCfg init (asyncOps (List.replicate 16 0))).2.drop 5 =
+    [.rsp [5, 0x0b] none, .illegal, .rsp [] none] := by decide
+example : (run constCrypto witnessCfg init (asyncOps (List.replicate 16 7))).2.drop 5 =
+    [.rsp [] none, .ok, .rsp (0x0d :: List.replicate 16 7) none] := by decide
+
+/-- non-vacuity: a synchronous yes (corpus/C32/dhkey_before_check_sync_yes.ops) no longer makes the
+    poll after Pairing Random send `Eb`; the central's check is verified and answered -/
+example : (run constCrypto witnessCfg init
+    [.user .syncYes, .pdu [0x01, 0x01, 0x00, 0x08, 0x10, 0x00, 0x00], .pdu (0x0c :: List.replicate 64 2), .out,
+     .pdu (0x04 :: List.replicate 16 7), .out, .pdu (0x0d :: List.replicate 16 7)]).2.drop 5 =
+    [.rsp [] none, .rsp (0x0d :: List.replicate 16 7) none] := by decide
 
 /-! ## C33 — "The security manager offers a key for link encryption only after a pairing on this
     connection completed successfully (legacy STK or LESC LTK, requested with EDIV=0 and Rand=0)
     or when the bond database holds a key for the requested EDIV/Rand and peer, and the offered
     key is the one that pairing produced." -/
 
-/-- **local_key_iff_completed / offered_key_is_pairing_key**: in every history the connection's
-    own answer to `find_key( 0, 0 )` *is* the ghost key: `some k` exactly when the last thing that
+/-- **local_key_iff_completed / offered_key_is_pairing_key** (history theorem): after every history
+    the connection's own answer to `find_key( 0, 0 )` *is* the ghost key, and the ghost is a fold
+    over the history's PDUs and responses: `some k` exactly when the last thing that
     happened to pairing on this connection is a successful completion (ghost `key`, set by a
     response `04 ‖ srand` to the Pairing Random following an accepted Pairing Confirm — then
-    `k = s1( tk, srand sent, mrand received )` — or by a sent DHKey check — then `k` is the f5 LTK
-    of this pairing's DH key, nonces and addresses; cleared by every other PDU, by Pairing Failed
-    and by a reconnect). -/
+    `k = s1( tk, srand sent, mrand received )` — or by a sent DHKey check — then `k = Ghost.ltk`,
+    the f5 LTK of the Pairing Public Key *received in this attempt*, the private half of the key pair
+    whose public half *was sent in this attempt* (`keyPair_is_sent`), the Pairing Random received
+    and the one sent in this attempt, and the two addresses; cleared by every other PDU, by every
+    Pairing Failed — sent as response to whatever the peer sent, including the peer's own Pairing
+    Failed `05 ..`, see `any_other_pdu_withdraws_key` — and by a reconnect). -/
 theorem offered_key_is_pairing_key (C : Crypto) (cfg : Cfg) (ops : List Op) :
     findKeyLocal (finalSt C cfg ops) 0 0 = (finalGhost C cfg ops).key :=
   (final_inv C cfg ops).key
+
+/-- the key pair the ghost records with an accepted Pairing Public Key is the one whose public half
+    is the response to that PDU -/
+theorem keyPair_is_sent (C : Crypto) (cfg : Cfg) (s : St) (g : Ghost) (p : Bytes)
+    (hp : p.head? = some 0x0c) (ha : (l2capInput C cfg s p).2.1.head? ≠ some 0x05) :
+    let r := l2capInput C cfg s p
+    let g' := gstep C cfg s g (.pdu p) (.rsp r.2.1 r.2.2)
+    r.2.1 = 0x0c :: g'.kp.1 ∧ g'.pka = p.drop 1 := by
+  intro r g'
+  have hs := l2capInput_spec C cfg s p
+  have hg : g' = gstep C cfg s g (.pdu p) (.rsp (l2capInput C cfg s p).2.1 (l2capInput C cfg s p).2.2) := rfl
+  have hr : r = l2capInput C cfg s p := rfl
+  rw [← hr] at hs ha hg
+  generalize r = r' at hs ha hg ⊢
+  have hgk : g'.kp = C.keys s.rng ∧ g'.pka = p.drop 1 := by
+    rw [hg]; simp [gstep, ha, hp]
+  cases hs with
+  | failed hf _ => obtain ⟨⟨e, he⟩, _⟩ := hf; rw [he] at ha; simp at ha
+  | legacyRequest _ hp' => rw [hp] at hp'; simp at hp'
+  | lescRequest _ hp' => rw [hp] at hp'; simp at hp'
+  | confirm _ hp' => rw [hp] at hp'; simp at hp'
+  | legacyRandom _ hp' => rw [hp] at hp'; simp at hp'
+  | publicKey _ _ _ _ hrr _ hpub => exact ⟨by rw [hrr, hpub, hgk.1], hgk.2⟩
+  | lescRandom _ hp' => rw [hp] at hp'; simp at hp'
+  | dhkeyCheck _ hp' => rw [hp] at hp'; simp at hp'
+  | dhkeyVerified _ hp' => rw [hp] at hp'; simp at hp'
+
+/-- **any_other_pdu_withdraws_key**: in every state — in particular in `pairing_completed` — a PDU
+    whose opcode is not one of `01 03 04 0c 0d` (e.g. the peer's Pairing Failed `05 ..`) is answered
+    with Pairing Failed, pairing is idle and no key is offered for (0, 0) by the connection. -/
+theorem any_other_pdu_withdraws_key (C : Crypto) (cfg : Cfg) (s : St) (p : Bytes)
+    (hop : ∀ o ∈ [0x01, 0x03, 0x04, 0x0c, 0x0d], p.head? ≠ some o) :
+    FailedIdle (l2capInput C cfg s p) ∧ findKeyLocal (l2capInput C cfg s p).1 0 0 = none := by
+  have h : FailedIdle (l2capInput C cfg s p) := by
+    rcases else_failed_and_idle C cfg s p with ⟨ha, _⟩ | hf
+    · exfalso
+      generalize (l2capInput C cfg s p).1.st = st' at ha
+      generalize s.st = st at ha
+      cases ha with
+      | legacyRequest _ _ h1 => exact hop 0x01 (by simp) h1
+      | lescRequest _ _ h1 => exact hop 0x01 (by simp) h1
+      | confirm _ _ h1 => exact hop 0x03 (by simp) h1
+      | legacyRandom _ _ h1 => exact hop 0x04 (by simp) h1
+      | publicKey _ _ h1 => exact hop 0x0c (by simp) h1
+      | lescRandom _ _ _ h1 => exact hop 0x04 (by simp) h1
+      | dhkeyCheck _ _ _ h1 => exact hop 0x0d (by simp) h1
+      | dhkeyVerified _ _ h1 => exact hop 0x0d (by simp) h1
+    · exact hf
+  exact ⟨h, findKeyLocal_ne _ (by rw [h.2]; simp)⟩
+
+/-- non-vacuity: the peer's Pairing Failed -/
+example : ∀ o ∈ [(0x01 : UInt8), 0x03, 0x04, 0x0c, 0x0d], ([0x05, 0x08] : Bytes).head? ≠ some o := by decide
 
 theorem local_key_iff_completed (C : Crypto) (cfg : Cfg) (ops : List Op) :
     (finalSt C cfg ops).st = .completed ↔ (finalGhost C cfg ops).key.isSome = true := by
@@ -308,7 +375,7 @@ theorem key_offered_iff (C : Crypto) (cfg : Cfg) (ops : List Op) (ediv rand : Na
     passes) offers its STK for (0, 0) and nothing for (1, 0); a further PDU withdraws it -/
 example : (run constCrypto { witnessCfg with variant := .legacy, input := .none, display := false } init
     [.pdu [1, 3, 0, 0, 16, 0, 0], .pdu (3 :: List.replicate 16 0), .pdu (4 :: List.replicate 16 0),
-     .findKey 0 0, .findKey 1 0, .pdu [0x0b], .findKey 0 0]).2.drop 3 =
+     .findKey 0 0, .findKey 1 0, .pdu [0x05, 0x08], .findKey 0 0]).2.drop 3 =
     [.key (some []), .key none, .rsp [5, 7] none, .key none] := by decide
 
 /-! ## C34 — "Long-term key, EDIV and Rand are transmitted only while the link is encrypted, each
@@ -342,7 +409,7 @@ theorem distribution_facts (C : Crypto) (cfg : Cfg) (ops : List Op) :
     | publicKey _ _ _ _ hr => rw [hr] at hem; simp at hem
     | lescRandom _ _ _ hr => rw [hr] at hem; simp at hem
     | dhkeyCheck _ _ _ _ hr => rw [hr] at hem; simp at hem
-    | dhkeyDeferred _ _ _ _ hr => rw [hr] at hem; simp at hem
+    | dhkeyVerified _ _ _ _ _ hr => rw [hr] at hem; simp at hem
   | out =>
     refine ⟨rfl, ?_⟩
     simp only [step, emitsDistribution] at hem
